@@ -202,7 +202,14 @@ func oneBody(kind, strategy string, iter int) {
 		if iter%2 == 0 {
 			time.Sleep(time.Duration(iter%5) * time.Millisecond)
 		}
+		t0 := time.Now()
 		s.Stop()
+		// every sink of this body returns at once: a Stop that comes back only after its 5 s grace period waited
+		// for an engine goroutine that never finished (normal duration: milliseconds)
+		if d := time.Since(t0); d >= 4900*time.Millisecond {
+			fmt.Printf("WRONG RESULT UNDER CONCURRENCY: Stop took %v (its grace period) although no sink blocks; kind %s strategy %s iter %d\n", d, kind, strategy, iter)
+			os.Exit(1)
+		}
 	}()
 	if kind == "direct" || kind == "analytic" || kind == "analytic-when" {
 		// two more callers on the synchronous path (rows that pass and rows that fail a WHEN gate)
